@@ -296,14 +296,20 @@ func Exec(tag string, path []int) (out mc.ExecResult) {
 	}
 	// ------------------------------------------------------------------ oracles on the last block
 	if job.Prop == "C04" {
-		r.checkDelta(&last, viol)
+		if passed := r.checkDelta(&last, viol); passed {
+			// the recorded total wrapped around 2^64: everything after this point is arithmetic on a
+			// meaningless total, so the path ends here and the wrap is reported once, under one signature
+			out.Info = "total passed 2^64"
+			return
+		}
 	}
 	r.checkState(job.Prop, last.post, viol, 0)
+	// the state reached by the path (the forward probe below moves the chain on, so take the key first)
+	out.Key = mc.Hash(fmt.Sprintf("%s|%d|%s", last.post.Key, last.post.Height, r.ref.Key()))
+	out.OK = true
 	if job.Prop == "C12" {
 		r.tail(last.post, viol)
 	}
-	out.Key = mc.Hash(fmt.Sprintf("%s|%d|%s", last.post.Key, last.post.Height, r.ref.Key()))
-	out.OK = true
 	if last.exp != nil {
 		out.Info = last.exp.String()
 	}
@@ -368,7 +374,7 @@ func (r *runner) checkState(prop string, s *Snap, viol func(kind, what string, t
 }
 
 // checkDelta compares the change of Supply.Total over the last block with the reference ledger.
-func (r *runner) checkDelta(s *stepResult, viol func(kind, what string, tail int)) {
+func (r *runner) checkDelta(s *stepResult, viol func(kind, what string, tail int)) (passed2to64 bool) {
 	got := new(big.Int).Sub(new(big.Int).SetUint64(s.post.Supply.Total), new(big.Int).SetUint64(s.pre.Supply.Total))
 	want := s.exp.Delta()
 	if got.Cmp(want) == 0 {
@@ -378,6 +384,7 @@ func (r *runner) checkDelta(s *stepResult, viol func(kind, what string, tail int
 	next := new(big.Int).Add(new(big.Int).SetUint64(s.pre.Supply.Total), want)
 	if next.BitLen() > 64 {
 		kind = "total-supply-passes-2^64"
+		passed2to64 = true
 	} else if got.Cmp(want) > 0 {
 		kind += ":more-than-ledger"
 	} else {
@@ -385,6 +392,7 @@ func (r *runner) checkDelta(s *stepResult, viol func(kind, what string, tail int
 	}
 	viol(kind, fmt.Sprintf("block %d changed Supply.Total by %s (from %d to %d) but the reference ledger says %s: %s; dropped txs %v",
 		s.pre.Height, got, s.pre.Supply.Total, s.post.Supply.Total, want, s.exp, s.dropped), 0)
+	return
 }
 
 // tail is the forward probe of C12: empty blocks for every height up to 1 + the largest pending
